@@ -346,8 +346,8 @@ pub fn strategy() -> BoxedStrategy<Case> {
 pub fn def(ctx: &Ctx) -> PropDef {
     let t = ctx.tier;
     let mut subs: Vec<Box<dyn SubCheck>> = Vec::new();
-    for part in 0..8 {
-        subs.push(PSub::boxed(format!("timers/{}", part), t.pick(750, 75_000), strategy, check));
+    for part in 0..16 {
+        subs.push(PSub::boxed(format!("timers/{}", part), t.pick(1500, 150_000), strategy, check));
     }
     if ctx.tier == crate::engine::Tier::Thorough {
         subs.push(crate::props::fuzzsub::FuzzSub::boxed("fz_timer", "C13", 150000, false));
